@@ -476,7 +476,12 @@ def evaluate(ctx, cases):
             same_input = canon_input(c["a"]) == canon_input(c["b"])
             ctx.hist("pair", "equivalent" if same_input else "distinct")
             if "key" in a and "key" in b:
-                if not same_input and a["key"] == b["key"]:
+                if not same_input and a["name"] == b["name"] and a["crc"] != b["crc"]:
+                    ctx.violation(c, "two different inputs get the same verify() module name %s although neither CRC32 "
+                                  "collides (crc pairs %s and %s): [%s] and [%s]" % (
+                                      a["name"], ["%08x" % x for x in a["crc"]], ["%08x" % x for x in b["crc"]],
+                                      describe(c["a"]), describe(c["b"])))
+                elif not same_input and a["key"] == b["key"]:
                     ctx.violation(c, "two different inputs give the same verify() key (and module name %s): [%s] and [%s]"
                                   % (a["name"], describe(c["a"]), describe(c["b"])), key=finding_key(c))
                 elif same_input and a["key"] != b["key"]:
@@ -557,6 +562,95 @@ def evaluate(ctx, cases):
     ctx.mismatches.sort(key=lambda v: len(json.dumps(v[0], default=str)))
 
 
+# ---------------------------------------------------------------------------- names without a CRC collision
+
+CRC_VALUES = [0, 1, 2, 0xa, 0xf, 0x10, 0x12, 0x1f, 0x23, 0xab, 0xb0, 0x100, 0x123, 0xabc, 0xfff, 0x1000, 0xabcd, 0xbcde,
+              0xabcde, 0xabcdef, 0xabcdef1, 0xbcdef12, 0x2345678, 0x10000000, 0x12345678, 0x89abcdef, 0xabcdef12,
+              0xffffffff, 0xfffffff, 0xf0000000]
+
+
+def gf2_solve(vectors, target):
+    """subset of `vectors` (32-bit ints) whose XOR is `target`, as a list of indices; None if not in the span"""
+    basis = []          # (pivot bit, vector, mask of contributing indices)
+    for i, v in enumerate(vectors):
+        m = 1 << i
+        for pb, bv, bm in basis:
+            if v >> pb & 1:
+                v ^= bv
+                m ^= bm
+        if v:
+            basis.append((v.bit_length() - 1, v, m))
+    t, mask = target, 0
+    for pb, bv, bm in sorted(basis, reverse=True):
+        if t >> pb & 1:
+            t ^= bv
+            mask ^= bm
+    if t:
+        return None
+    return [i for i in range(len(vectors)) if mask >> i & 1]
+
+
+def forge_filler(key, lo, n, targets):
+    """key: the bytes hashed for a source whose comment holds n 'a' characters at key[lo:lo+n].  Returns the n
+    characters over {'a','c'} for which crc32(key[0::2]) and crc32(key[1::2]) become `targets` (CRC32 is affine:
+    each half is solved separately by Gaussian elimination over GF(2))."""
+    filler = bytearray(b"a" * n)
+    for parity in (0, 1):
+        half = bytearray(key[parity::2])
+        idx = [i for i in range(lo, lo + n) if i % 2 == parity]
+        c0 = zlib.crc32(bytes(half)) & 0xffffffff
+        deltas = []
+        for i in idx:
+            half[i // 2] = ord("c")
+            deltas.append((zlib.crc32(bytes(half)) & 0xffffffff) ^ c0)
+            half[i // 2] = ord("a")
+        sol = gf2_solve(deltas, targets[parity] ^ c0)
+        if sol is None:
+            return None
+        for j in sol:
+            filler[idx[j] - lo] = ord("c")
+    return filler.decode()
+
+
+def name_collision_search(ctx):
+    """Names are formatted from the two CRCs; look, on the real formatting code (crc32 replaced by chosen constants),
+    for two different CRC pairs with the same name.  If there are any, forge two real inputs with those CRC pairs
+    (no patching) and report them: they share a module name without any CRC32 collision."""
+    s = ctx.scratch()
+    pairs = [[a, b] for a in CRC_VALUES for b in CRC_VALUES]
+    out, p = s.run_worker("c32_worker.py", dict(cases=[dict(kind="fmt", pairs=pairs)]), timeout=600)
+    if out is None:
+        ctx.mismatch(dict(kind="fmt"), "worker failed: " + p.stderr[-800:], "harness: name formatting probe")
+        return
+    names = out["results"][0]["names"]
+    ctx.count(len(names))
+    groups = {}
+    for pr, nm in zip(pairs, names):
+        groups.setdefault(nm, []).append(pr)
+    clashes = [g for nm, g in sorted(groups.items()) if len(g) > 1 and not nm.startswith("!")]
+    ctx.extra["name_formatting_probe"] = dict(pairs=len(pairs), distinct_names=len(groups), clashes=len(clashes))
+    if not clashes:
+        return
+    n = 96
+    base = dict(sources=["int forged;"], preamble="/*" + "a" * n + "*/", kwds=[], tag="", generic=False)
+    out, p = s.run_worker("c32_worker.py", dict(cases=[dict(kind="pair", a=base, b=base)]), timeout=600)
+    key = bytes.fromhex(out["results"][0]["a"]["key"]) if out and "key" in out["results"][0]["a"] else None
+    lo = key.find(b"/*" + b"a" * n) + 2 if key else -1
+    if lo < 2:
+        ctx.mismatch(dict(kind="fmt"), "cannot locate the filler in the hashed key", "harness: CRC forging")
+        return
+    cases = []
+    for g in clashes[:4]:
+        (a1, a2), (b1, b2) = g[0], g[1]
+        fa, fb = forge_filler(key, lo, n, (a1, a2)), forge_filler(key, lo, n, (b1, b2))
+        if fa is None or fb is None:
+            continue
+        cases.append(dict(kind="pair", forged_crcs=[[a1, a2], [b1, b2]],
+                          a=dict(base, preamble="/*" + fa + "*/"), b=dict(base, preamble="/*" + fb + "*/")))
+    if cases:
+        evaluate(ctx, cases)
+
+
 def run(ctx):
     ctx.cov["rule"] = (
         "prims: py_dec / hex+strip / sorted / join / step slices / UTF-8 codec of the model vs CPython on random and "
@@ -566,7 +660,9 @@ def run(ctx):
         "processes with PYTHONHASHSEED 0/1/4242, two keyword orders each and a repeated call — name and hashed bytes "
         "must coincide — and vs the model with the observed CRCs; pair: two close inputs (strings re-split across list "
         "items, list/tuple, True/1, text moved between source, kwargs and cdefs, sources joined/split, NUL in a comment) — "
-        "hashed keys must differ iff the inputs differ (up to the recorded reading). Non-trivial = container value / "
+        "hashed keys must differ iff the inputs differ (up to the recorded reading), and equal names require equal CRC pairs; "
+        "fmt: the real name formatting probed with 900 chosen CRC pairs (crc32 replaced by constants) — any two pairs with "
+        "one name are turned into two real inputs by CRC32 forgery and reported. Non-trivial = container value / "
         ">= 2 keywords / any pair; distinct by canonical input.")
     ctx.assumptions += [
         "translator tools/props/c35_trans.py + shape-matched driver for Verifier.__init__; primitives C32/PyStr.v, "
@@ -576,6 +672,7 @@ def run(ctx):
         "dict order, for NUL-free source/cdefs (DESIGN Appendix B)",
         "Python version text and __version_verifier_modules__ are inputs of the key"]
     evaluate(ctx, generate(ctx))
+    name_collision_search(ctx)
     if not [v for v in ctx.violations if v[2] is None] and (ctx.thorough or ctx.tier_search == "thorough" or ctx.mismatches):
         evaluate(ctx, generate(ctx, big=True))
 
